@@ -42,13 +42,21 @@ GATES1 = ["x", "y", "z", "h", "k", "s", "t"]
 @st.composite
 def st_idiom(draw, allow_load_q=False):
     nq = draw(st.integers(1, 4))
-    lines: List[str] = ["# NETQASM 0.0", "# APPID 0", "array 6 @0"]
+    head = ["# NETQASM 0.0", "# APPID 0"]
+    lines: List[str] = list(head) + ["array 6 @0"]
     for i in range(6):
         lines.append(f"store {draw(st.integers(0, 2))} @0[{i}]")
     for q in range(nq):
         lines += [f"set Q0 {q}", "qalloc Q0", "init Q0"]
+    # the body may be a subroutine of its own (state persists): then its first instruction can be a loop label (line 0)
+    split = draw(st.integers(0, 2)) == 0
+    prologue = None
+    if split:
+        prologue = "\n".join(lines) + "\n"
+        lines = list(head)
     labels = [0]
-    qregs = ["Q0", "Q1", "Q2", "Q5"]
+    # a handful of the 16 Q registers per program (different ones in different programs)
+    qregs = sorted(draw(st.sets(st.sampled_from([f"Q{i}" for i in range(16)]), min_size=2, max_size=5)))
     loop_regs = ["R5", "R6"]
     info = {"cc": False, "end_label": False, "loops": 0, "ifs": 0, "load_q": False}
 
@@ -104,7 +112,26 @@ def st_idiom(draw, allow_load_q=False):
                 out += gate_lines()
         return out
 
-    body = block(0)
+    stress = nq >= 3 and draw(st.integers(0, 9)) == 0
+    if stress:
+        # many carbon-carbon gates in one subroutine
+        body = []
+        for _ in range(draw(st.integers(15, 20))):
+            a, b = draw(st.sampled_from([(1, 2), (2, 1)]))
+            ra, rb = qregs[0], qregs[1]
+            body += [f"set {ra} {a}", f"set {rb} {b}", f"{draw(st.sampled_from(['cnot', 'cphase']))} {ra} {rb}"]
+        info["cc"] = True
+        info["stress"] = True
+    elif split and draw(st.integers(0, 1)) == 0 and loop_regs:
+        # loop whose entry label is the very first line of the subroutine (counter initialised by the previous subroutine)
+        r = loop_regs.pop()
+        prologue += f"set {r} 0\n"
+        le, lx = new_label("LOOP"), new_label("LOOP_EXIT")
+        body = [f"{le}:", f"beq {r} {draw(st.integers(1, 3))} {lx}"] + block(1) + [f"add {r} {r} 1", f"jmp {le}", f"{lx}:"] + block(1)
+        info["loops"] += 1
+        info["label_at_0"] = True
+    else:
+        body = block(0)
     lines += body
     if body and body[-1].endswith(":"):
         info["end_label"] = True
@@ -114,7 +141,7 @@ def st_idiom(draw, allow_load_q=False):
         lines += [f"load R1 @0[0]", f"beq R1 {draw(st.integers(0, 2))} {lab}"] + gate_lines() + [f"{lab}:"]
         info["end_label"] = True
     outcomes = draw(st.lists(st.integers(0, 1), min_size=0, max_size=12))
-    return {"kind": "idiom", "text": "\n".join(lines) + "\n", "outcomes": outcomes, "nq": nq, "debug": draw(st.booleans()), "info": info}
+    return {"kind": "idiom", "text": "\n".join(lines) + "\n", "prologue": prologue, "outcomes": outcomes, "nq": nq, "debug": draw(st.booleans()), "info": info}
 
 
 # ------------------------------------------------------------------ execution
@@ -248,8 +275,10 @@ def check(case) -> Dict[str, Any]:
     from netqasm.lang.parsing.text import parse_text_subroutine
 
     if case["kind"] == "idiom":
-        sub = parse_text_subroutine(case["text"])
-        return compare(case, [sub], case["debug"])
+        subs = [parse_text_subroutine(case["text"])]
+        if case.get("prologue"):
+            subs.insert(0, parse_text_subroutine(case["prologue"]))
+        return compare(case, subs, case["debug"])
     prog = {k: case[k] for k in ("stmts", "outcomes", "qubits")}
     hp.run_direct(prog, prog["outcomes"])  # domain check
     try:
@@ -267,8 +296,8 @@ def shard(ctx: Ctx) -> None:
         check(case)
         i = case["info"]
         nt = i["cc"] or i["end_label"] or i["ifs"] > 0
-        labels = ["idiom", f"nq:{case['nq']}", "debug" if case["debug"] else "nodebug"] + [k for k in ("cc", "end_label") if i[k]] + (["loop"] if i["loops"] else []) + (["if"] if i["ifs"] else [])
-        stt.case(case["text"] + str(case["outcomes"]) + str(case["debug"]), nt, labels, sample={"text": case["text"], "debug": case["debug"]} if len(case["text"]) < 700 else None)
+        labels = ["idiom", f"nq:{case['nq']}", "debug" if case["debug"] else "nodebug"] + [k for k in ("cc", "end_label", "stress", "label_at_0") if i.get(k)] + (["loop"] if i["loops"] else []) + (["if"] if i["ifs"] else [])
+        stt.case(str(case.get("prologue")) + case["text"] + str(case["outcomes"]) + str(case["debug"]), nt, labels, sample={"text": case["text"], "debug": case["debug"]} if len(case["text"]) < 700 else None)
 
     allow = KF_LOAD not in ctx.open_findings
     if not allow:
